@@ -305,4 +305,24 @@ CANARIES = {
             "cases": ["aux/euclid"], "what": "values returned alongside derivatives are thrown away",
         },
     },
+    "C19": {
+        "scalar_multiply_mutates_operand": {
+            "module": "mici.matrices",
+            "old": "        new_inv_lu = old_inv_lu - (scalar - 1) / scalar * np.triu(old_inv_lu)",
+            "new": "        old_inv_lu -= (scalar - 1) / scalar * np.triu(old_inv_lu)\n        new_inv_lu = old_inv_lu",
+            "cases": ["inv_lu"], "what": "scalar multiplication updates the operand's LU factor in place",
+        },
+        "inverse_depends_on_cached_array": {
+            "module": "mici.matrices",
+            "old": "    def _construct_inv(self) -> DiagonalMatrix:\n        return DiagonalMatrix(1.0 / self.diagonal)",
+            "new": "    def _construct_inv(self) -> DiagonalMatrix:\n        return DiagonalMatrix(1.0 / self.diagonal) if self._array is None else DiagonalMatrix(self.diagonal)",
+            "cases": ["diagonal"], "what": "a lazily computed attribute depends on which other attribute was computed first",
+        },
+        "parameters_left_writable": {
+            "module": "mici.matrices",
+            "old": "            if isinstance(v, np.ndarray):\n                v.flags.writeable = False",
+            "new": "            if isinstance(v, np.ndarray):\n                pass",
+            "cases": ["pos_diagonal"], "what": "parameter arrays stay writable after construction",
+        },
+    },
 }
